@@ -124,6 +124,9 @@ def _run_hyp(prop, cl, n, seed, tier, kf_open):
     def body(case):
         try:
             ctx = run_case(cl, case, kf_open)
+        except (core.Inconclusive, MemoryError):
+            stats.classes["inconclusive:out-of-memory"] = stats.classes.get("inconclusive:out-of-memory", 0) + 1
+            return
         except Violation as v:
             last_fail["case"] = case
             last_fail["msg"] = str(v)
@@ -215,6 +218,10 @@ def _run_enum(prop, cl, tier, shard, nshards, kf_open):
     for case in cl.enum(tier, shard, nshards):
         try:
             ctx = run_case(cl, case, kf_open)
+        except (core.Inconclusive, MemoryError):
+            stats.evaluations += 1
+            stats.classes["inconclusive:out-of-memory"] = stats.classes.get("inconclusive:out-of-memory", 0) + 1
+            continue
         except Violation as v:
             if failure is None or len(core.canon(case)) < len(core.canon(failure["case"])):
                 failure = {"kind": "violation", "case": case, "msg": str(v)}
